@@ -81,6 +81,9 @@ type seeCtx struct {
 	ps     *pstate         // path being enumerated (nil outside path mode)
 	defAt  ssa.Instruction // observation point for pointees of address values (path end)
 	fn     *ssa.Function   // function whose values this context evaluates
+	// retAlias: result i of an inlined call is the address of an object the callee
+	// allocated (a constructor helper); it is re-observed at every use, not snapshotted
+	retAlias map[ssa.Value]map[int]*ssa.Alloc
 }
 
 // Of returns the expression for v evaluated in its own function, without
@@ -117,6 +120,13 @@ func (c *seeCtx) of(v ssa.Value) *Expr {
 		return &Expr{Op: OpUnknown, Name: "nil-value"}
 	}
 	_, isAlloc := v.(*ssa.Alloc)
+	if ra, ok := c.retAlias[v]; ok && c.ps != nil {
+		if al := ra[0]; al != nil && len(ra) == 1 {
+			if _, isTuple := v.Type().(*types.Tuple); !isTuple {
+				return c.of(al)
+			}
+		}
+	}
 	if e, ok := c.memo[v]; ok && !isAlloc {
 		return e
 	}
@@ -239,6 +249,11 @@ func (c *seeCtx) of1(v ssa.Value) *Expr {
 						k++
 					}
 				}
+			}
+		}
+		if ra, ok := c.retAlias[v.Tuple]; ok && c.ps != nil {
+			if al := ra[v.Index]; al != nil {
+				return c.of(al)
 			}
 		}
 		t := c.of(v.Tuple)
@@ -533,6 +548,29 @@ func allocAliases(a *ssa.Alloc) []ssa.Value {
 			continue
 		}
 		for _, r := range *refs {
+			if ret, ok := r.(*ssa.Return); ok && len(out) < 16 {
+				// returned by a constructor helper: the call's value denotes the same place
+				for _, cs := range callSitesOf(ret.Parent()) {
+					var av ssa.Value = cs
+					if len(ret.Results) > 1 {
+						av = nil
+						for ri, rv := range ret.Results {
+							if rv != v || cs.Referrers() == nil {
+								continue
+							}
+							for _, cr := range *cs.Referrers() {
+								if ex, ok := cr.(*ssa.Extract); ok && ex.Index == ri {
+									av = ex
+								}
+							}
+						}
+					}
+					if av != nil && !seen[av] {
+						seen[av] = true
+						out = append(out, av)
+					}
+				}
+			}
 			if ci, ok := r.(ssa.CallInstruction); ok {
 				// the address is passed to a module-local callee: its parameter denotes the same place
 				if callee := StaticCallee(ci.Common()); callee != nil && callee.Blocks != nil && len(out) < 16 {
@@ -562,6 +600,55 @@ func allocAliases(a *ssa.Alloc) []ssa.Value {
 		}
 	}
 	return out
+}
+
+var callSiteIndex = map[*ssa.Package]map[*ssa.Function][]*ssa.Call{}
+
+// callSitesOf lists the static calls of f made from f's own package.
+func callSitesOf(f *ssa.Function) []*ssa.Call {
+	pkg := f.Pkg
+	if pkg == nil && f.Parent() != nil {
+		pkg = outermost(f).Pkg
+	}
+	if pkg == nil {
+		return nil
+	}
+	idx, ok := callSiteIndex[pkg]
+	if !ok {
+		idx = map[*ssa.Function][]*ssa.Call{}
+		var visit func(g *ssa.Function)
+		visit = func(g *ssa.Function) {
+			for _, b := range g.Blocks {
+				for _, in := range b.Instrs {
+					if call, ok := in.(*ssa.Call); ok {
+						if callee := StaticCallee(&call.Call); callee != nil {
+							idx[callee] = append(idx[callee], call)
+						}
+					}
+				}
+			}
+			for _, a := range g.AnonFuncs {
+				visit(a)
+			}
+		}
+		for _, m := range pkg.Members {
+			switch m := m.(type) {
+			case *ssa.Function:
+				visit(m)
+			case *ssa.Type:
+				for _, t := range []types.Type{m.Type(), types.NewPointer(m.Type())} {
+					ms := pkg.Prog.MethodSets.MethodSet(t)
+					for i := 0; i < ms.Len(); i++ {
+						if g := pkg.Prog.MethodValue(ms.At(i)); g != nil && g.Pkg == pkg && g.Synthetic == "" {
+							visit(g)
+						}
+					}
+				}
+			}
+		}
+		callSiteIndex[pkg] = idx
+	}
+	return idx[f]
 }
 
 // StoresTo returns the store instructions writing exactly the place
@@ -649,7 +736,7 @@ func (c *seeCtx) loadAlloc(a *ssa.Alloc, path []int) *Expr {
 			alts = append(alts, &Expr{Op: OpZero, Typ: t, Name: "zero"})
 			continue
 		}
-		val := c.of(ps.st.Val)
+		val := c.envFor(ps.st).of(ps.st.Val)
 		// project remaining path
 		tt := elem
 		for d := 0; d < len(path); d++ {
@@ -738,8 +825,63 @@ func StaticCallee(call *ssa.CallCommon) *ssa.Function {
 		return f
 	case *ssa.MakeClosure:
 		return f.Fn.(*ssa.Function)
+	case *ssa.UnOp:
+		// a local func-valued variable (possibly captured by the calling closure) that is
+		// assigned exactly once
+		if f.Op == token.MUL {
+			return singleFuncValue(f.X)
+		}
 	}
 	return nil
+}
+
+// singleFuncValue resolves the address of a local variable of function type
+// (an Alloc, or a FreeVar bound to one) that has exactly one store, of a
+// closure or function, to that function.
+func singleFuncValue(addr ssa.Value) *ssa.Function {
+	for depth := 0; depth < 6; depth++ {
+		fv, ok := addr.(*ssa.FreeVar)
+		if !ok {
+			break
+		}
+		f := fv.Parent()
+		if f == nil || f.Parent() == nil {
+			return nil
+		}
+		mc, ok := closureSiteIn(f.Parent(), f).(*ssa.MakeClosure)
+		if !ok {
+			return nil
+		}
+		idx := -1
+		for i, x := range f.FreeVars {
+			if x == fv {
+				idx = i
+			}
+		}
+		if idx < 0 || idx >= len(mc.Bindings) {
+			return nil
+		}
+		addr = mc.Bindings[idx]
+	}
+	al, ok := addr.(*ssa.Alloc)
+	if !ok {
+		return nil
+	}
+	var fn *ssa.Function
+	n := 0
+	for _, ps := range storesToPlace(al, nil) {
+		n++
+		switch v := ps.st.Val.(type) {
+		case *ssa.Function:
+			fn = v
+		case *ssa.MakeClosure:
+			fn = v.Fn.(*ssa.Function)
+		}
+	}
+	if n != 1 {
+		return nil
+	}
+	return fn
 }
 
 func (c *seeCtx) call(v *ssa.Call) *Expr {
@@ -1028,6 +1170,23 @@ func (e *Expr) Contains(pred func(*Expr) bool) bool {
 		return true
 	})
 	return found
+}
+
+// envFor returns the environment in which the operands of an instruction on
+// the current path are evaluated: that of the frame (inlined helper) the
+// instruction belongs to.
+func (c *seeCtx) envFor(in ssa.Instruction) *seeCtx {
+	f := in.Parent()
+	if c.ps == nil || f == c.fn {
+		return c
+	}
+	for i := len(c.ps.segs) - 1; i >= 0; i-- {
+		sg := c.ps.segs[i]
+		if sg.env != nil && sg.b.Parent() == f {
+			return sg.env
+		}
+	}
+	return c
 }
 
 func outermost(f *ssa.Function) *ssa.Function {
